@@ -225,6 +225,17 @@ def r4(ctx):
     ctx.ob("toggle is RMW", all([a[0] for a in r["atomics"]] == ["fetch_xor"] for r in rows), "toggle is not a single fetch_xor (a load+store pair can lose a concurrent update)", site=site)
 
 
+@rule("C20.W", "type-level: compile-fail witnesses with compiling twins (K6; thorough tier)")
+def rw(ctx):
+    from analysis import witness
+    if ctx.config != "ws":
+        return
+    witness.check(ctx, {'c20_local_private': 'the thread-local override is reachable from other crates', 'c20_global_private': 'the global flag is reachable from other crates', 'c20_saved_state_not_send': 'a saved override can be moved to another thread', 'c20_saved_state_unforgeable': 'a saved override can be forged'})
+
+
+rw.thorough_only = True
+
+
 def _toggle_load_store(P):
     b = P.own("fns", TE + "toggle")
     for blk in b["blocks"]:
